@@ -247,6 +247,9 @@ class Question(object):
 
             try:
                 return self._validator(interviewer())
+            except RuntimeError:
+                # The answer could not be read (end of input): asking again cannot help
+                raise
             except Exception as e:
                 error = e
 
